@@ -54,7 +54,7 @@ CLAIMED = {
    technique='deterministic simulation (single driver task): interleaved sessions sharing one object, self-differential oracle against fresh solo runs',
    note="No reference semantics are assumed: the reference is the crate itself on a fresh pipeline. Sampling, not enumeration."),
  'C10': dict(level='exploration', design='5.10',
-   text="Generated call histories (length <= 8 quick / 12 thorough) over {subscribe_i, unsubscribe_i, next(v), error, complete} with up to 3 observers (attached directly, through map, through take(1|2)) on each of the four subject types, including misuse (subscribe after a terminal, double unsubscribe, calls after a terminal), with the HashMap iteration order perturbed. Oracle: a reference state machine that reads the statement literally; after the run every observer's record equals the model's and after every step the subject's registered-observer count equals the model's live set. Where the statement is silent only weak invariants are asserted.",
+   text="Generated call histories (length <= 8 quick / 12 thorough) over {subscribe_i, unsubscribe_i, next(v), error, complete} with up to 3 observers (attached directly, through map, through take(1|2)) on each of the four subject types, including misuse (subscribe after a terminal, double unsubscribe, calls after a terminal), with the HashMap iteration order perturbed. Oracle: a reference state machine that reads the statement literally; after the run every observer's record equals the model's and after every step the subject's registered-observer count equals the model's live set. Where the statement is silent only weak invariants are asserted. One observer may be subscribed from inside another one's terminal callback; a second family runs the ReplaySubject hand-over against pushes / a terminal from another thread.",
    technique='deterministic simulation (single task): generated operation histories incl. misuse + hash-order fault, checked step by step against an executable reference model',
    note="The reference model is ~150 lines in harness/src/c10.rs. Sampling of the history space; a clean batch is evidence, not proof."),
  'C13': dict(level='exploration', design='5.13',
@@ -62,7 +62,7 @@ CLAIMED = {
    technique='deterministic simulation: generated operation histories against an executable reference model + seeded interleavings of concurrent first subscribers',
    note="Reference model in harness/src/c13.rs. Sampling of the history space."),
  'C03': dict(level='exploration', design='5.3',
-   text="Stage-wise refinement: one judged combinator (merge, concat, zip, combine_latest, amb, sequence_equal, take_until, skip_until, sample, flat_map with cold and hot overlapping inner sources) with 1..4 inputs, each a scripted hot / cold / subject source or creation function optionally behind other operators, probes on every input edge (and on every inner observable of flat_map) and on the output edge, driven in generated sequential interleavings. The operator's reference model is evaluated on the recorded input histories (global arrival order, subscription instants) and must allow the recorded output; may-sets where the statement is silent. utils::ready_set_go has its own family. switch_on_next is exercised, not judged.",
+   text="Stage-wise refinement: one judged combinator (merge, concat, zip, combine_latest, amb, sequence_equal, take_until, skip_until, sample, flat_map with cold and hot overlapping inner sources) with 1..4 inputs, each a scripted hot / cold / subject source or creation function optionally behind other operators, probes on every input edge (and on every inner observable of flat_map) and on the output edge, driven in generated sequential interleavings. The operator's reference model is evaluated on the recorded input histories (global arrival order, subscription instants) and must allow the recorded output; may-sets where the statement is silent. utils::ready_set_go has its own family; amb is additionally run with its inputs on different simulated threads (single winner). switch_on_next is exercised, not judged.",
    technique='deterministic simulation (single driver task): generated arrival orders of several sources; per-operator executable reference models on recorded edge histories',
    note="Reference models in harness/src/c03.rs (about 300 lines); the probe stage is written like the crate's own map. Sampling of scripts x interleavings."),
  'C04': dict(level='fault_enumeration', design='5.4',
